@@ -15,6 +15,15 @@ def judge(rec, price, ops):
             continue
         d = lvl.kv(I.split(" || ")[0])
         op = o["op"]
+        if op.startswith("REBUILD ") and d.get("built", "ok") == "ok":
+            # the rebuilt level is a new level object: its statistics count the events since it was built
+            # (built through add_order by the text / data forms: `orders_added` then starts at the number of orders; the
+            # property does not say which, so the rebuilt level's own report is the baseline)
+            if "st" in d:
+                adds, rems, _, qty, val = [int(x) for x in d["st"].split("/")]
+                if rems or qty or val or adds not in (0, len(gen.parse_list(d["vec"]))):
+                    return [(o["i"], "a freshly rebuilt level reports statistics %s" % d["st"])]
+            continue
         if op.startswith("ADD "):
             adds += 1
         elif op.startswith("UPD "):
@@ -122,7 +131,27 @@ def corr_filter(text):
 def make_cases(rng, tier):
     n = 1200 if tier == "quick" else 30000
     # the property's domain: positive quantities, orders priced at the level price, no rebuild
-    return histories(rng, n, allow_zero=False, at_level_price=True, rebuilds=False, forks=False)
+    cs = histories(rng, n, allow_zero=False, at_level_price=True, rebuilds=False, forks=False)
+    # levels restored from a snapshot / serialized form carry resting orders and fresh statistics: cancels and matches
+    # BEFORE the first add, and adds after them (judged by the python restatement only; the Coq statement is for
+    # histories without a rebuild)
+    for i in range(n // 5):
+        g = lvl.HistGen(rng, allow_zero=False, at_level_price=True, rebuilds=False, forks=False, reads=False)
+        ops = g.history(rng.randint(3, 12))
+        ops.append("REBUILD " + rng.choice(lvl.VIAS))
+        tail = []
+        for _ in range(rng.randint(1, 6)):
+            x = rng.random()
+            if x < 0.4:
+                tail.append("UPD " + g.update())
+            elif x < 0.8:
+                tail.append("MATCH %d u%d" % (rng.choice([1, 3, 8, 40]), 7100 + len(tail)))
+            else:
+                tail.append("ADD " + g.new_order())
+        tail.append("ADD " + g.new_order())
+        tail += ["UPD " + g.update(), "MATCH 5 u7200"]
+        cs.append((g.price, ops + tail))
+    return cs
 
 
 def conc_part(ck):
